@@ -14,6 +14,7 @@ Open Scope Z_scope.
    keep int(self) as packed value; bytes tests isinstance; string decodes bytes with surrogateescape; the digest
    setters demand 16 / 20 / 32 bytes and digest.__init__ raises for anything that is not a tuple, list, dict or
    None; __setattr__ stores after converting and lets None through; GroupedRecord.__setattr__ delegates to it;
+   fieldtype(T + "[]") is the list class of exactly fieldtype(T) for every whitelist entry in either resolution order;
    typedlist converts every element; datetime ends with the tzinfo fix-up.  Reverting any of the repairs e636926 / f4497f4 / b7afec5 makes this fail. *)
 Theorem C05_generated_facts : facts_ok gen_facts = true.
 Proof. reflexivity. Qed.
